@@ -35,6 +35,10 @@ type Facts struct {
 	CacheMethods      map[string][]string `json:"cacheMethods"` // name -> [lock mode, "mut"|"ro"]
 	LimitChecks       []string            `json:"limitChecks"`  // functions that compare a handler count with abortIndex
 	NoWritten         int                 `json:"noWritten"`
+	// methods of responseWriter: name -> does the body mention the underlying writer `.Writer` directly?
+	WriterMethods map[string]bool `json:"writerMethods"`
+	// methods of Context, sorted (the set of things a handler can call)
+	ContextMethods []string `json:"contextMethods"`
 }
 
 var fset = token.NewFileSet()
@@ -77,6 +81,7 @@ func main() {
 	collectRequestPathWrites(files, &f)
 	collectCacheMethods(files, &f)
 	collectLimitChecks(files, &f)
+	collectMethodSets(files, &f)
 
 	if *js != "" {
 		b, _ := json.MarshalIndent(f, "", " ")
@@ -445,6 +450,33 @@ func collectRequestPathWrites(files []*ast.File, f *Facts) {
 	sort.Strings(f.RequestPathWrites)
 }
 
+// method sets: every method of responseWriter (with whether it touches the underlying writer) and every method
+// of Context.  A new way to reach the underlying writer, or a new context operation, has to be looked at.
+func collectMethodSets(files []*ast.File, f *Facts) {
+	f.WriterMethods = map[string]bool{}
+	for _, fd := range funcDecls(files) {
+		rn, rt := recvOf(fd)
+		switch rt {
+		case "responseWriter":
+			touches := false
+			if fd.Body != nil {
+				ast.Inspect(fd.Body, func(n ast.Node) bool {
+					if se, ok := n.(*ast.SelectorExpr); ok && se.Sel.Name == "Writer" {
+						if id, ok := se.X.(*ast.Ident); ok && id.Name == rn {
+							touches = true
+						}
+					}
+					return true
+				})
+			}
+			f.WriterMethods[fd.Name.Name] = touches
+		case "Context":
+			f.ContextMethods = append(f.ContextMethods, fd.Name.Name)
+		}
+	}
+	sort.Strings(f.ContextMethods)
+}
+
 func collectCacheMethods(files []*ast.File, f *Facts) {
 	for _, fd := range funcDecls(files) {
 		rn, rt := recvOf(fd)
@@ -652,6 +684,21 @@ func render(f Facts) string {
 	fmt.Fprintf(&b, "/-- fields of `responseWriter` -/\ndef writerFields : List String := %s\n\n", leanStrList(f.WriterFields))
 	fmt.Fprintf(&b, "/-- fields of `responseWriter` assigned by `reset` -/\ndef writerFieldsReset : List String := %s\n\n", leanStrList(f.WriterReset))
 	fmt.Fprintf(&b, "/-- every assignment to / append on / delete from a field of the shared Router or a shared Route inside the per-request functions -/\ndef requestPathWrites : List String := %s\n\n", leanStrList(f.RequestPathWrites))
+	{
+		var names []string
+		for n := range f.WriterMethods {
+			names = append(names, n)
+		}
+		sort.Strings(names)
+		b.WriteString("/-- methods of `responseWriter`: (name, mentions the underlying `.Writer`?) sorted by name -/\ndef writerMethods : List (String × Bool) := [")
+		for i, n := range names {
+			if i > 0 {
+				b.WriteString(", ")
+			}
+			fmt.Fprintf(&b, "(%q, %v)", n, f.WriterMethods[n])
+		}
+		b.WriteString("]\n\n")
+	}
 	b.WriteString("/-- methods of `cachedRoutes`: (name, lock taken first, mutates shared state?) sorted by name -/\ndef cacheMethods : List (String × String × Bool) := [")
 	var cms []string
 	for k := range f.CacheMethods {
